@@ -309,3 +309,117 @@ pub fn shard_rng(seed: u64, shard: usize, stream: u64) -> R {
     use rand::SeedableRng;
     R::seed_from_u64(seed.wrapping_mul(0x9E3779B97F4A7C15) ^ ((shard as u64) << 32) ^ stream.wrapping_mul(0xD1B54A32D192ED03))
 }
+
+/// number of nodes of the legal-captures-only tree below `p`, counted up to `cap`
+pub fn capture_tree(p: &Pos, cap: &mut i64) {
+    *cap -= 1;
+    if *cap < 0 {
+        return;
+    }
+    for m in p.legal_moves() {
+        if m.capture.is_some() {
+            capture_tree(&p.make(&m), cap);
+            if *cap < 0 {
+                return;
+            }
+        }
+    }
+}
+
+/// true when the captures-only tree below `p` has at most `limit` nodes
+pub fn tame(p: &Pos, limit: i64) -> bool {
+    let mut cap = limit;
+    capture_tree(p, &mut cap);
+    cap >= 0
+}
+
+/// at most 1 queen, 2 rooks, 2 bishops, 2 knights per side plus `extra` promoted pieces
+pub fn realistic_material(p: &Pos, extra: usize) -> bool {
+    for sign in [1i8, -1] {
+        let mut over = 0usize;
+        for (k, base) in [(5i8, 1usize), (4, 2), (3, 2), (2, 2)] {
+            let n = p.count(sign * k);
+            if n > base {
+                over += n - base;
+            }
+        }
+        if over > extra || over + p.count(sign) > 8 {
+            return false;
+        }
+    }
+    true
+}
+
+fn material_stm(p: &Pos) -> i32 {
+    let mut v = 0i32;
+    for x in p.b {
+        let w = match x.abs() {
+            1 => 100,
+            2 => 300,
+            3 => 350,
+            4 => 500,
+            5 => 900,
+            _ => 0,
+        };
+        v += if x > 0 { w } else { -w };
+    }
+    if p.wtm {
+        v
+    } else {
+        -v
+    }
+}
+
+fn q_emul(p: &Pos, mut alpha: i32, beta: i32, budget: &mut i64) -> i32 {
+    *budget -= 1;
+    if *budget < 0 {
+        return 0;
+    }
+    let ms = p.legal_moves();
+    if ms.is_empty() {
+        return if p.in_check(p.wtm) { -100_000 } else { 0 };
+    }
+    let mut caps: Vec<&OMove> = ms.iter().filter(|m| m.capture.is_some()).collect();
+    let stand = material_stm(p);
+    if caps.is_empty() {
+        return stand;
+    }
+    if stand >= beta {
+        return beta;
+    }
+    alpha = alpha.max(stand);
+    let val = |k: Kind| match k {
+        Kind::P => 1,
+        Kind::N => 3,
+        Kind::B => 4,
+        Kind::R => 5,
+        Kind::Q => 9,
+        Kind::K => 100,
+    };
+    caps.sort_by_key(|m| -(val(m.capture.unwrap()) - val(m.piece)));
+    for m in caps {
+        let v = -q_emul(&p.make(m), -beta, -alpha, budget);
+        if *budget < 0 {
+            return 0;
+        }
+        if v >= beta {
+            return beta;
+        }
+        alpha = alpha.max(v);
+    }
+    alpha
+}
+
+/// Cost predictor for the engine's unbounded capture search (known finding F11): a captures-only
+/// alpha-beta with material stand-pat, run with a full window below every successor of `p`.
+/// Returns the node count, saturating at `limit`.
+pub fn q_cost(p: &Pos, limit: i64) -> i64 {
+    let mut budget = limit;
+    for m in p.legal_moves() {
+        q_emul(&p.make(&m), -1_000_000, 1_000_000, &mut budget);
+        if budget < 0 {
+            return limit;
+        }
+    }
+    limit - budget
+}
